@@ -92,6 +92,15 @@ func (pe *PathEnum) Known(v ssa.Value) (bool, bool) {
 	return pe.env.eval(pe.cur, v)
 }
 
+// NilOf reports the nil-ness of a value decided on the current path (a result
+// of an inlined helper, a value tested against nil on the way).
+func (pe *PathEnum) NilOf(v ssa.Value) (isNil, known bool) {
+	if pe.env == nil {
+		return false, false
+	}
+	return pe.env.nilOf(pe.cur, v)
+}
+
 type peBlockKey struct {
 	fr *Frame
 	b  *ssa.BasicBlock
